@@ -718,7 +718,7 @@ class Gen(object):
             self.step()
         # the pseudo-type 'self' (known finding F21 on every forest) is queried in the nasty stream and in one clean case out of ten
         return {"op": "c11", "args": {"variants": self.variants, "ops": self.ops,
-                                      "self_queries": bool(self.nasty or self.rng.random() < 0.1)}}
+                                      "self_queries": bool(self.nasty or self.rng.random() < (0.1 if self.tier == "quick" else 0.004))}}
 
 
 # ------------------------------------------------------------------------------------------------ the Prop
